@@ -6,7 +6,15 @@
     object at slot [src] over slot [dst]); [stray s i]: the object at slot [i]
     does not carry its own address.  [args o] are the object arguments of a
     call that go through the guarded getter: every entry point except the
-    *_init functions and cstl_array_size. *)
+    *_init functions and cstl_array_size.
+
+    The guarded pointer itself is an object kind of the pool ([KG]) with the
+    operations cstl_guarded_ptr_init / set / get / get_const / copy / swap
+    ([GInit], [GSet], [GGet], [GGetC], [GCopy dst src], [GSwap]); [op], [args],
+    [slots], [lib_step] include them, so every theorem below quantifies over
+    them as well.  [args] of init and set is empty and [args (GCopy dst src)]
+    is [[src]]: these functions overwrite their destination and stamp it with
+    its own address without reading it ([C20_guarded_restamp]). *)
 From Cstl Require Import Prelude AllocModel MemModel ArrayViewModel MemProofs ArrayViewProofs.
 Local Open Scope N_scope.
 
@@ -40,15 +48,17 @@ Section C20.
     (forall e, shared_share s e i = Ab) /\ (forall b, gp_swap s i b = Ab) /\ (forall x, weak_from s i x = Ab) /\
     (forall w, weak_lock s w i = Ab) /\ array_reset s i = Ab /\ (forall ok nm sz, array_alloc ok false s i nm sz = Ab) /\
     array_data s i = Ab /\ array_release s i = Ab /\ (forall b e t, array_slice false s i b e t = Ab) /\
-    (forall a, array_unslice s i a = Ab).
+    (forall a, array_unslice s i a = Ab) /\
+    guarded_get_const s i = Ab /\ guarded_get s i = Ab /\ (forall d, guarded_copy s d i = Ab).
   Proof.
     intros E W.
     pose proof (shared_reset_stray s i o E W) as R1. pose proof (weak_reset_stray s i o E W) as R2.
     pose proof (unique_reset_stray s i o E W) as R3. pose proof (stray_shared_get s i o E W) as R4.
+    pose proof (guarded_get_const_stray s i o E W) as R5.
     repeat split; auto; intros;
       unfold shared_alloc, unique_alloc, shared_share, weak_from, weak_lock, array_reset, array_alloc, array_data,
-        array_release, array_slice, array_unslice, array_reset; cbn [negb];
-      rewrite ?R1, ?R2, ?R3, ?R4; auto.
+        array_release, array_slice, array_unslice, array_reset, guarded_copy, guarded_get; cbn [negb];
+      rewrite ?R1, ?R2, ?R3, ?R4, ?R5; auto.
     unfold gp_swap, rd_gp, gget. rewrite E. cbn [bind]. unfold wf_obj in W. rewrite W. reflexivity.
   Qed.
 
@@ -118,6 +128,36 @@ Section C20.
   Theorem C20_calls_are_local ok v0 x s o :
     ~ In x (slots o) -> step ok v0 (blank x s) o = omap (blank x) (step ok v0 s o).
   Proof. exact (step_local ok v0 x s o). Qed.
+
+  (** guarded pointer objects: cstl_guarded_ptr_set (hence init) and the
+      destination of cstl_guarded_ptr_copy are written without being read, in
+      every state and whatever the object held (a stray copy included), and
+      carry their own address afterwards: the next get returns the new value.
+      The source of copy and both arguments of swap go through the guard
+      ([C20_stray_aborts], [C20_first_argument_guard]). *)
+  Theorem C20_guarded_restamp s i o p :
+    nth_error (objs s) i = Some o ->
+    nth_error (objs (guarded_set s i p)) i = Some (ptr_obj i o p) /\
+    wf_obj i (ptr_obj i o p) = true /\
+    guarded_get (guarded_set s i p) i = Ok p /\ guarded_get_const (guarded_set s i p) i = Ok p /\
+    guarded_init s i = guarded_set s i None /\
+    forall src os, nth_error (objs s) src = Some os -> wf_obj src os = true ->
+      guarded_copy s i src = Ok (guarded_set s i (gp (ogp os))).
+  Proof.
+    intros E. destruct (guarded_set_spec s i o p E) as (S1 & S2).
+    pose proof (guarded_get_const_wf _ i _ S2 (wf_ptr_obj i o p)) as G. cbn in G.
+    repeat split; auto using wf_ptr_obj.
+    intros src os Es W. rewrite (guarded_copy_wf s i src o os E Es W).
+    rewrite (proj1 (guarded_set_spec s i o _ E)). reflexivity.
+  Qed.
+
+  (** a well-formed guarded pointer object -- the original of a stray copy
+      as well as an object written by set / copy / swap -- hands out exactly
+      the stored value *)
+  Theorem C20_guarded_get_value s i o :
+    nth_error (objs s) i = Some o -> wf_obj i o = true ->
+    guarded_get s i = Ok (gp (ogp o)) /\ guarded_get_const s i = Ok (gp (ogp o)).
+  Proof. intros E W. split; exact (guarded_get_const_wf s i o E W). Qed.
 End C20.
 
 (** Non-vacuity: stray copies of an owning shared pointer, a unique pointer
@@ -139,9 +179,33 @@ Example C20_example :
   end.
 Proof. vm_compute. auto 10. Qed.
 
+(** Non-vacuity for guarded pointer objects (slots 0-2): a stray copy of a
+    NULL and of a non-NULL object aborts in get, get_const, as the source of
+    copy and on either side of swap; init / set / being the destination of copy
+    make it usable again; the original keeps its value. *)
+Example C20_guarded_example :
+  let ok := fun _ _ => true in
+  let pool := st_init [KG; KG; KG; KS] [] in
+  let pre v := [OM (GSet 0 v); OM (GSet 2 (Some 7%nat)); OM (StrayCopy 0 1)] in
+  (forall v, In v [None; Some 5%nat] ->
+     fst (run (step ok false) pool (pre v ++ [OM (GGet 1)])) = Abort /\
+     fst (run (step ok false) pool (pre v ++ [OM (GGetC 1)])) = Abort /\
+     fst (run (step ok false) pool (pre v ++ [OM (GCopy 2 1)])) = Abort /\
+     fst (run (step ok false) pool (pre v ++ [OM (GSwap 1 2)])) = Abort /\
+     fst (run (step ok false) pool (pre v ++ [OM (GSwap 2 1)])) = Abort /\
+     fst (run (step ok false) pool (pre v ++ [OM (GSwap 1 1)])) = Abort) /\
+  match run (step ok false) pool (pre (Some 5%nat) ++ [OM (GGet 0); OM (GCopy 1 2); OM (GGetC 1); OM (GSwap 0 1); OM (GGet 0);
+                                                     OM (StrayCopy 2 1); OM (GInit 1); OM (GGet 1)]) with
+  | (Done s _, outs) => nth 3 outs [] = [5]%Z /\ nth 5 outs [] = [7]%Z /\ nth 7 outs [] = [7]%Z /\ nth 10 outs [] = [-1]%Z
+  | _ => False
+  end.
+Proof. vm_compute. split; [intros v [<-|[<-|[]]]; auto 10|auto 10]. Qed.
+
 Print Assumptions C20_stray_aborts.
 Print Assumptions C20_first_argument_guard.
 Print Assumptions C20_wellformed_never_aborts.
 Print Assumptions C20_stray_copy_keeps_invariants.
 Print Assumptions C20_stray_copy_frame.
 Print Assumptions C20_calls_are_local.
+Print Assumptions C20_guarded_restamp.
+Print Assumptions C20_guarded_get_value.
